@@ -143,6 +143,9 @@ package posix
 //@ func (*Posix) fileToObj
 //@   frame none
 //@ func (*Posix) ListObjects
+// C04: the walk is rooted in the bucket's own directory through os.DirFS, whose io/fs path validation refuses any
+// name with a dot-dot element (the prefix cannot leave the bucket)
+//@   at-call backend.Walk {C04} [walk-is-rooted-in-the-bucket-directory] requires called("os.DirFS") && $1 == result("os.DirFS", 0) && arg("os.DirFS", 0) == old(*input.Bucket)
 //@   requires {C07} input.MaxKeys != nil && 0 <= *input.MaxKeys && *input.MaxKeys <= 1000
 //@   let walk = result("backend.Walk", 0)
 //@   at-call backend.Walk {C07} [walk-gets-the-request-parameters] requires $2 == ite(input.Prefix != nil, *input.Prefix, "") \
@@ -152,6 +155,9 @@ package posix
 //@   ensures {C07} [next-position-is-the-walk-marker] err == nil ==> (walk.NextMarker == "" ==> ret0.NextMarker == nil) && (walk.NextMarker != "" ==> ret0.NextMarker != nil && *ret0.NextMarker == walk.NextMarker)
 //@   ensures {C07} [at-most-max-keys-objects] err == nil ==> len(ret0.Contents) <= old(*input.MaxKeys)
 //@ func (*Posix) ListObjectsV2
+// C04: the walk is rooted in the bucket's own directory through os.DirFS, whose io/fs path validation refuses any
+// name with a dot-dot element (the prefix cannot leave the bucket)
+//@   at-call backend.Walk {C04} [walk-is-rooted-in-the-bucket-directory] requires called("os.DirFS") && $1 == result("os.DirFS", 0) && arg("os.DirFS", 0) == old(*input.Bucket)
 //@   requires {C07} input.MaxKeys != nil && 0 <= *input.MaxKeys && *input.MaxKeys <= 1000
 //@   requires {C07} input.ContinuationToken != nil && input.StartAfter != nil
 //@   let walk = result("backend.Walk", 0)
